@@ -27,13 +27,16 @@ REQUIRED = [
 RULE = ('(a) datasets of all five convention classes (holes = cells without geometry; UGRID meshes from '
         'gen_mesh mix triangles..octagons, concave L / pentagon faces, mid-edge collinear nodes, both windings, '
         'random start vertex); (b) targeted simple polygons with integer coordinates packed as disjoint faces of '
-        'UGRID meshes: strictly convex, convex with collinear vertices, star-shaped, 2-opt untangled random, '
-        'hand-made concave templates (dart, L, T, U, stairs, spiral, comb ...) under unimodular maps, EVERY '
-        'rotation of the start vertex and both windings of each template; (c) EVERY simple polygon with 3..4 '
-        '(thorough: ..5, sampled 6) vertices on the 3x3 lattice; (d) a malformed stream (repeated vertex, bow-tie, '
-        'spike, pinch, zero area) where only the unconditional clauses are compared. Model input is the '
-        'generator\'s vertex list, never read back from emsarray. Non-trivial = a cell that is concave, has a '
-        'collinear vertex, or has >= 5 sides; distinct = distinct (vertex sequence up to translation).')
+        'UGRID meshes (80 per dataset, sizes and kinds mixed): strictly convex, convex with collinear vertices, '
+        'star-shaped, 2-opt untangled random, hand-made concave templates (dart, L, T, U, stairs, spiral, comb ...) '
+        'under unimodular maps, EVERY rotation of the start vertex and both windings of each template; among them '
+        'rings that are not valid polygons (bow-tie, spike, pinch, zero area), which Convention.polygons drops and '
+        'which must come out as cells without triangles; (c) EVERY simple polygon with 3..8 vertices on the 3x3 '
+        'lattice (thorough: 3..9, and 3..6 on the 4x3 lattice); (d) rings with a repeated vertex (valid for shapely, '
+        'outside the property: model and code compared, oracle not applied). Model input is the generator\'s vertex '
+        'list, never read back from emsarray; a dataset whose emsarray polygons differ from the ground truth is '
+        'skipped and counted. Non-trivial = a cell that is concave, has a collinear vertex, has >= 5 sides, or an '
+        'invalid ring; distinct = distinct vertex sequence up to translation.')
 TRUSTED = [
     'GEOS (shapely): convex_hull vertex count, LineString.covered_by(Polygon), LinearRing.intersection(LineString).equals(MultiPoint) '
     '— appear in the theorems as arbitrary functions isConvex / isEar; the driver instantiates them with exact rational tests '
@@ -237,7 +240,8 @@ def truth_cells(built) -> list:
         if p is None:
             cells.append(None)
             continue
-        p = [tuple(v) for v in p]
+        # shapely closes a ring unless its last vertex already equals its first
+        p = [tuple(v) for v in util.expected_ring(p)]
         cells.append(p if T.is_valid_ring(p) else None)
     return cells
 
@@ -310,8 +314,10 @@ def do_dataset(ctx, recipe: dict, items: list, label: str, labels: list | None =
             G.bind(b1)
             res1, _ = call_impl(b1.ds)
             cells1 = truth_cells(b1)
-            if res1 is None or any(s == sig for s, _, _ in oracle(cells1, res1)):
+            again = [m for s, _, m in (oracle(cells1, res1) if res1 is not None else []) if s == sig]
+            if again:
                 d = {'recipe': r1, 'op': 'tri'}
+                msg = again[0]
         ctx.oracle_fail(sig, d, msg)
     # conclusions / hypotheses of the theorems on the real output, evaluated by the model
     V = exact_vertices(res[0])
@@ -375,16 +381,17 @@ def run(ctx) -> None:
         labels.append(kind)
     # (c) exhaustive lattice polygons
     if not ctx.searching:
-        for n in [3, 4, 5]:
-            for p in T.lattice_polys(n):
-                polys.append(p)
-                labels.append(f'lattice3x3:{n}')
-        six = list(T.lattice_polys(6)) if ctx.thorough else []
-        for p in six:
-            polys.append(p)
-            labels.append('lattice3x3:6')
-        ctx.notes.append('exhaustive: every simple polygon with 3..%d vertices on the 3x3 lattice (all rotations, both windings)'
-                         % (6 if ctx.thorough else 5))
+        spaces = [(3, 3, range(3, 9))]
+        if ctx.thorough:
+            spaces = [(3, 3, range(3, 10)), (4, 3, range(3, 7))]
+        for w, h, ns in spaces:
+            for n in ns:
+                for p in T.lattice_polys(n, w, h):
+                    polys.append(p)
+                    labels.append(f'lattice{w}x{h}:{n}')
+        ctx.notes.append('exhaustive sub-space: ' + '; '.join(
+            f'every simple polygon with {min(ns)}..{max(ns)} vertices on the {w}x{h} lattice' for w, h, ns in spaces)
+            + ' (all start vertices, both windings)')
     order = list(range(len(polys)))
     rng.shuffle(order)      # mix sizes and kinds inside every dataset
     chunk = 80
@@ -416,10 +423,20 @@ def run_one(ctx, inp: dict) -> dict:
     G.bind(built)
     cells = truth_cells(built)
     res, err = call_impl(built.ds)
-    out = {'cells': cells_line(cells)}
-    out['impl'] = err if res is None else canon_impl(res)
+    short = lambda t: t if len(t) <= 900 else t[:900] + ' …'   # noqa: E731
+    out = {'cells': short(cells_line(cells))}
+    impl = err if res is None else canon_impl(res)
+    out['impl'] = short(impl)
     if ctx.driver:
-        out['model'] = ctx.model(['tri ' + cells_line(cells)])[0]
+        model = ctx.model(['tri ' + cells_line(cells)])[0]
+        out['model'] = short(model)
+        out['agree'] = impl == model
+        k = inp.get('cell')
+        if k is not None and inp.get('op') in ('convex', 'ears', 'strictconvex', 'fansorted', 'convexcell') and cells[k] is not None:
+            p = cells[k]
+            line = f"{inp['op']} {ring_line(p)}"
+            want = {'convex': geos_convex, 'strictconvex': geos_convex, 'ears': geos_ears}.get(inp['op'], lambda _p: '1')(p)
+            out[f"cell {k} {inp['op']}"] = f'GEOS/expected {want}, model {ctx.model([line])[0]}'
     if res is not None:
-        out['oracle'] = [f'{s}: {m}' for s, _, m in oracle(cells, res)] or 'no clause of C14 fails'
+        out['oracle'] = [f'{s}: {m}' for s, _, m in oracle(cells, res)][:6] or 'no clause of C14 fails'
     return out
